@@ -387,6 +387,318 @@ fn mutate(entry: &str, file: &[u8], rng: &mut Rng) -> Vec<u8> {
     v
 }
 
+
+// ------------------------------------------------------------------------------------------
+// hand-built accepted images with long / undecodable strings in every string-bearing position
+// ------------------------------------------------------------------------------------------
+//
+// The library's writers cannot produce a string that is not valid Shift-JIS, but every parser
+// accepts one (it is decoded with U+FFFD), and re-serialising it must end in `EncodingFailed`,
+// never in a panic — wherever the multi-byte characters of the decoded string fall.  These images
+// are written byte by byte so that the raw name is under the generator's control.
+
+/// One raw Shift-JIS "character" and the UTF-8 length of what it decodes to.
+#[derive(Clone, Copy, PartialEq)]
+enum Ch {
+    Ascii,
+    Half,   // 0xB1            -> U+FF71, 3 bytes of UTF-8
+    Kana,   // 0x83 0x41       -> U+30A2, 3 bytes
+    Greek,  // 0x83 0x9F       -> U+0391, 2 bytes
+    Cyr,    // 0x84 0x40       -> U+0410, 2 bytes
+    BadFF,  // never valid     -> U+FFFD, 3 bytes
+    BadFD,
+    BadA0,
+}
+
+impl Ch {
+    fn utf8(self) -> usize {
+        match self {
+            Ch::Ascii => 1,
+            Ch::Greek | Ch::Cyr => 2,
+            _ => 3,
+        }
+    }
+    fn is_bad(self) -> bool {
+        matches!(self, Ch::BadFF | Ch::BadFD | Ch::BadA0)
+    }
+    fn put(self, out: &mut Vec<u8>, k: usize) {
+        match self {
+            Ch::Ascii => out.push(b'a' + (k % 26) as u8),
+            Ch::Half => out.push(0xB1 + (k % 16) as u8),
+            Ch::Kana => out.extend_from_slice(&[0x83, 0x41 + (k % 8) as u8]),
+            Ch::Greek => out.extend_from_slice(&[0x83, 0x9F + (k % 8) as u8]),
+            Ch::Cyr => out.extend_from_slice(&[0x84, 0x40 + (k % 6) as u8]),
+            Ch::BadFF => out.push(0xFF),
+            Ch::BadFD => out.push(0xFD),
+            Ch::BadA0 => out.push(0xA0),
+        }
+    }
+}
+
+const GOOD: [Ch; 5] = [Ch::Ascii, Ch::Half, Ch::Kana, Ch::Greek, Ch::Cyr];
+const BAD: [Ch; 3] = [Ch::BadFF, Ch::BadFD, Ch::BadA0];
+
+#[derive(Clone, Copy, PartialEq)]
+enum BadAt {
+    Boundary, // the straddling character itself is the undecodable byte
+    First,
+    Last,
+    LoneLead, // the string ends in a lead byte without its trail byte
+}
+
+/// Raw name whose decoded form has a character `at` starting at UTF-8 offset `start` (so it lies
+/// across offset `start + 1` and, when 3 bytes long, `start + 2`), preceded by exactly `start`
+/// bytes worth of characters (ASCII only, or a mix of 1-, 2- and 3-byte ones) and followed by a few
+/// more; an undecodable byte sits where `bad` says.
+fn straddle(start: usize, at: Ch, bad: BadAt, mixed: bool, rng: &mut Rng) -> Vec<u8> {
+    let mut out = Vec::new();
+    let mut used = 0usize;
+    let mut k = rng.below(26) as usize;
+    if bad == BadAt::First && start >= 3 {
+        rng.pick(&BAD).put(&mut out, 0);
+        used += 3;
+    }
+    while used < start {
+        let c = if mixed { *rng.pick(&GOOD) } else { Ch::Ascii };
+        let c = if used + c.utf8() <= start { c } else { Ch::Ascii };
+        c.put(&mut out, k);
+        k += 1;
+        used += c.utf8();
+    }
+    at.put(&mut out, k);
+    for _ in 0..rng.below(10) {
+        let c = if mixed { *rng.pick(&GOOD) } else { Ch::Ascii };
+        k += 1;
+        c.put(&mut out, k);
+    }
+    match bad {
+        BadAt::Last => rng.pick(&BAD).put(&mut out, 0),
+        BadAt::LoneLead => out.push(*rng.pick(&[0x81u8, 0x83, 0x9F, 0xE0, 0xFC])),
+        BadAt::First if start < 3 => rng.pick(&BAD).put(&mut out, 0),
+        _ => {}
+    }
+    out
+}
+
+/// The whole sweep: offsets 64 / 128 / 256, the straddling character starting 3, 2, 1, 0 bytes
+/// before the offset (3 and 0 are the controls: a character ending / starting exactly there).
+fn straddle_sweep(rng: &mut Rng) -> Vec<Vec<u8>> {
+    let mut v = Vec::new();
+    for t in [64usize, 128, 256] {
+        for d in 0..=3usize {
+            let start = t - d;
+            for mixed in [false, true] {
+                for at in BAD {
+                    for bad in [BadAt::Boundary, BadAt::First, BadAt::Last] {
+                        v.push(straddle(start, at, bad, mixed, rng));
+                    }
+                }
+                for at in [Ch::Half, Ch::Kana, Ch::Greek, Ch::Cyr] {
+                    for bad in [BadAt::First, BadAt::Last, BadAt::LoneLead] {
+                        v.push(straddle(start, at, bad, mixed, rng));
+                    }
+                }
+            }
+        }
+    }
+    v
+}
+
+/// The representative part of the sweep that every quick run carries (offset 64).
+fn straddle_core(rng: &mut Rng) -> Vec<Vec<u8>> {
+    let mut v = Vec::new();
+    for d in 0..=3usize {
+        v.push(straddle(64 - d, Ch::BadFF, BadAt::Boundary, false, rng));
+        v.push(straddle(64 - d, Ch::Kana, BadAt::First, false, rng));
+    }
+    v.push(straddle(63, Ch::Greek, BadAt::Last, true, rng));
+    v.push(straddle(62, Ch::Half, BadAt::LoneLead, true, rng));
+    v.push(straddle(127, Ch::BadFD, BadAt::Boundary, true, rng));
+    v.push(straddle(254, Ch::BadA0, BadAt::Boundary, false, rng));
+    v
+}
+
+/// A decodable name of exactly `len` encoded bytes (1- and 2-byte codes of the shared alphabet).
+fn clean_name(len: usize, rng: &mut Rng) -> Vec<u8> {
+    let mut out = Vec::new();
+    let mut k = rng.below(26) as usize;
+    while out.len() < len {
+        let c = if out.len() + 2 <= len { *rng.pick(&GOOD) } else { *rng.pick(&[Ch::Ascii, Ch::Half]) };
+        c.put(&mut out, k);
+        k += 1;
+    }
+    out
+}
+
+/// Bin-archive image written by hand: `strs` = (cell address, raw name) pairs (the cell gets a
+/// pointer into the text pool), `labels` = (address, raw name).
+fn raw_bin(data: &[u8], strs: &[(usize, &[u8])], labels: &[(usize, &[u8])], big: bool) -> Vec<u8> {
+    let w = |x: usize| if big { (x as u32).to_be_bytes() } else { (x as u32).to_le_bytes() };
+    let mut data = data.to_vec();
+    let text_start = data.len() + 4 * strs.len() + 8 * labels.len();
+    let mut pool: Vec<u8> = Vec::new();
+    let mut table: Vec<u8> = Vec::new();
+    for (cell, name) in strs {
+        data[*cell..*cell + 4].copy_from_slice(&w(text_start + pool.len()));
+        table.extend_from_slice(&w(*cell));
+        pool.extend_from_slice(name);
+        pool.push(0);
+    }
+    for (addr, name) in labels {
+        table.extend_from_slice(&w(*addr));
+        table.extend_from_slice(&w(pool.len()));
+        pool.extend_from_slice(name);
+        pool.push(0);
+    }
+    let mut raw = Vec::new();
+    raw.extend_from_slice(&w(0x20 + text_start + pool.len()));
+    raw.extend_from_slice(&w(data.len()));
+    raw.extend_from_slice(&w(strs.len()));
+    raw.extend_from_slice(&w(labels.len()));
+    raw.resize(0x20, 0);
+    raw.extend_from_slice(&data);
+    raw.extend_from_slice(&table);
+    raw.extend_from_slice(&pool);
+    raw
+}
+
+fn pad4(mut b: Vec<u8>) -> Vec<u8> {
+    b.push(0);
+    while b.len() % 4 != 0 {
+        b.push(0);
+    }
+    b
+}
+
+/// Number of string-bearing positions of an entry point that `named_image` can fill.
+fn positions(entry: &str) -> usize {
+    match entry {
+        "binLE" | "binBE" => 2,                                            // label, string cell
+        "textSjisLE" | "textSjisBE" => 2,                                  // key, message
+        "textUniLE" | "textUniBE" => 2,                                    // title, key
+        "pack" => 1,                                                       // entry name
+        "aset" => 5,                                                       // meta, first / last clip name, set label, slot
+        "asset" => 2,                                                      // record name, first optional string
+        "arc" => 1,                                                        // file name (no re-serialisation)
+        _ => 0,
+    }
+}
+
+/// An image `entry` accepts, with the raw Shift-JIS `name` in string position `pos`.
+fn named_image(entry: &str, pos: usize, name: &[u8]) -> Vec<u8> {
+    let big = entry.ends_with("BE");
+    match entry {
+        "binLE" | "binBE" => {
+            if pos == 0 {
+                raw_bin(&[0; 8], &[], &[(0, name)], big)
+            } else {
+                raw_bin(&[0; 8], &[(4, name)], &[(0, b"L")], big)
+            }
+        }
+        "textSjisLE" | "textSjisBE" => {
+            if pos == 0 {
+                raw_bin(&pad4(b"hi".to_vec()), &[], &[(0, name)], big)
+            } else {
+                raw_bin(&pad4(name.to_vec()), &[], &[(0, b"K")], big)
+            }
+        }
+        "textUniLE" | "textUniBE" => {
+            if pos == 0 {
+                raw_bin(&pad4(name.to_vec()), &[], &[], big)
+            } else {
+                let mut data = pad4(b"T".to_vec());
+                data.extend_from_slice(&[b'h', 0, b'i', 0, 0, 0, 0, 0]);
+                raw_bin(&data, &[], &[(4, name)], big)
+            }
+        }
+        "pack" => {
+            let mut raw = Vec::new();
+            raw.extend_from_slice(&0x7061636Bu32.to_be_bytes());
+            raw.extend_from_slice(&1u16.to_be_bytes());
+            raw.extend_from_slice(&[0, 0]);
+            let name_address = 8 + 16;
+            let file_address = name_address + name.len() + 1;
+            raw.extend_from_slice(&0u32.to_be_bytes());
+            raw.extend_from_slice(&(name_address as u32).to_be_bytes());
+            raw.extend_from_slice(&(file_address as u32).to_be_bytes());
+            raw.extend_from_slice(&4u32.to_be_bytes());
+            raw.extend_from_slice(name);
+            raw.push(0);
+            raw.extend_from_slice(&[1, 2, 3, 4]);
+            raw
+        }
+        "aset" => {
+            // header (4, meta cell, 0x100), 257 clip cells, one set: main flags 1, group flags 1, one slot
+            let mut data = vec![0u8; 12 + 257 * 4 + 12];
+            data[0] = 4;
+            data[9] = 1;
+            let set = 12 + 257 * 4;
+            data[set] = 1;
+            data[set + 4] = 1;
+            let table: &[u8] = b"AnimClipNameTable";
+            match pos {
+                0 => raw_bin(&data, &[(4, name), (set + 8, b"s")], &[(12, table)], false),
+                1 => raw_bin(&data, &[(12, name), (set + 8, b"s")], &[(12, table)], false),
+                2 => raw_bin(&data, &[(12 + 256 * 4, name), (set + 8, b"s")], &[(12, table)], false),
+                3 => raw_bin(&data, &[(set + 8, b"s")], &[(12, table), (set, name)], false),
+                _ => raw_bin(&data, &[(set + 8, name)], &[(12, table)], false),
+            }
+        }
+        "asset" => {
+            if pos == 0 {
+                let data = [7u8, 0, 0, 0, 0, 0, 0, 0, 0, 0, 0, 0];
+                raw_bin(&data, &[(8, name)], &[], false)
+            } else {
+                let data = [7u8, 0, 0, 0, 2, 0, 0, 0, 0, 0, 0, 0, 0, 0, 0, 0];
+                raw_bin(&data, &[(8, b"n"), (12, name)], &[], false)
+            }
+        }
+        "arc" => {
+            // count cell (1) at 0, one record at 4: name cell, index, size 2, offset 20; body at 20
+            let mut data = vec![0u8; 24];
+            data[0] = 1;
+            data[12] = 2;
+            data[16] = 20;
+            data[20] = 0xAB;
+            data[21] = 0xCD;
+            raw_bin(&data, &[(4, name)], &[(0, b"Count"), (4, b"Info")], false)
+        }
+        _ => panic!("entry {}", entry),
+    }
+}
+
+/// Long / undecodable / exact-length names in every string position of `entry`.
+fn named_cases(entry: &str, thorough: bool, rng: &mut Rng) -> Vec<Vec<u8>> {
+    let mut out = Vec::new();
+    let np = positions(entry);
+    for pos in 0..np {
+        let mut names = straddle_core(rng);
+        let sweep = straddle_sweep(rng);
+        if thorough {
+            names.extend(sweep);
+        } else {
+            for _ in 0..10 {
+                names.push(rng.pick(&sweep).clone());
+            }
+        }
+        // decodable names: every encoded length 0..=130 (thorough), else the lengths around the
+        // size thresholds and a rotating sample, plus the 2^8 neighbourhood
+        for len in 0..=130usize {
+            let near = [0usize, 1, 3, 4, 63, 64, 65, 127, 128, 129].contains(&len);
+            if thorough || near || len % 16 == (pos * 5 + 3) % 16 {
+                names.push(clean_name(len, rng));
+            }
+        }
+        for len in [255usize, 256, 257] {
+            names.push(clean_name(len, rng));
+        }
+        for n in names {
+            out.push(named_image(entry, pos, &n));
+        }
+    }
+    out
+}
+
 pub fn gen(seed: u64, tier: &str) -> Vec<String> {
     let mut rng = Rng::new(seed ^ 0xC05);
     let per_entry = if tier == "thorough" { 20000 } else { 1500 };
@@ -423,6 +735,10 @@ pub fn gen(seed: u64, tier: &str) -> Vec<String> {
                     push(&mut lines, entry, &m);
                 }
             }
+        }
+        // accepted images with long, exact-length and undecodable strings in every string position
+        for img in named_cases(entry, tier == "thorough", &mut rng) {
+            push(&mut lines, entry, &img);
         }
     }
     lines
